@@ -201,6 +201,105 @@ def check_reconcile(O, S, leafmap, opat, spat, leafsyn, explicit, algo, cost_opt
     return None
 
 
+def _clade_names(tree):
+    """ete3 tree -> {frozenset of leaf names: node}"""
+    return {frozenset(l.name for l in n.iter_leaves()): n for n in tree.traverse()}
+
+
+def check_reconcile_poly(O, S, leafmap, onames_in, snames_in, leafsyn, algo, cost_opt):
+    """Multifurcating input (extended solvers only).  Refinements add ancestors, so names are checked clade by clade:
+    a clade of the input keeps its name if it had one; every other ancestor must carry the reference pre-order
+    numbering of the written (binary) tree.  None or (subcheck, detail)"""
+    snames = dict(snames_in)
+    onames = dict(onames_in)
+    for v in O.leaves:
+        onames[v] = f"{snames[leafmap[v]]}_{v}"
+    data = {"object_tree": O.newick(onames), "species_tree": S.newick(snames),
+            "leaf_object_species": {onames[v]: snames[leafmap[v]] for v in O.leaves},
+            "leaf_syntenies": {onames[v]: list(leafsyn[v]) for v in O.leaves}}
+    text = json.dumps(data)
+    lines_by_policy = {}
+    for policy in ("any", "all"):
+        argv = ["reconcile", "--solutions", policy] + cost_opt + [algo]
+        try:
+            status, out, err, _ = cli_driver.run_cli(argv, text)
+        except Exception as exc:
+            return ("exception", f"reconcile {algo} --solutions {policy} raised {type(exc).__name__}: {exc}\n"
+                    f"{traceback.format_exc(limit=6)}")
+        if status != 0:
+            return ("status", f"reconcile {algo} --solutions {policy} exited with {status}; stderr: {err[-300:]}")
+        printed = cli_driver.parse_min_cost(err)
+        lines = [ln for ln in out.split("\n") if ln.strip()]
+        if printed is None or not lines:
+            return ("no_output", f"reconcile {algo}: no 'Minimum cost:' line or no solution written; stderr {err[-200:]}")
+        if policy == "any" and len(lines) != 1:
+            return ("any_count", f"--solutions any wrote {len(lines)} lines")
+        canon = []
+        for ln in lines:
+            try:
+                obj = json.loads(ln)
+            except Exception as exc:
+                return ("not_json", f"output line is not a JSON object: {ln[:200]} ({exc})")
+            canon.append(json.dumps(obj, sort_keys=True))
+            for key, tm, inames, prefix in (("object_tree", O, onames, "O"), ("species_tree", S, snames, "S")):
+                got, tree = names_in_preorder(obj["input"][key])
+                if any(len(n.children) not in (0, 2) for n in tree.traverse()):
+                    return ("not_binary", f"{key} written non-binary: {obj['input'][key]}")
+                if len(set(got)) != len(got) or any(not n or n == "NoName" for n in got):
+                    return ("names_not_unique", f"{key} written with names {got} (input {data[key]})")
+                in_clades = {frozenset(inames[l] for l in tm.leaves_under(v)): inames[v] for v in range(tm.n)}
+                out_clades = _clade_names(tree)
+                for cl, nm in in_clades.items():
+                    if cl not in out_clades:
+                        return ("clade_lost", f"{key}: clade {sorted(cl)} of the input is missing from {obj['input'][key]}")
+                    if nm and out_clades[cl].name != nm:
+                        return ("naming", f"{key}: node of clade {sorted(cl)} was named {nm!r}, written as {out_clades[cl].name!r}")
+                # reference numbering on the written topology
+                used = set(n for n in in_clades.values() if n)
+                nxt = 0
+                for node in tree.traverse("preorder"):
+                    cl = frozenset(l.name for l in node.iter_leaves())
+                    if in_clades.get(cl):
+                        continue
+                    while f"{prefix}{nxt}" in used:
+                        nxt += 1
+                    want = f"{prefix}{nxt}"
+                    used.add(want)
+                    if node.name != want:
+                        return ("naming", f"{key}: written {obj['input'][key]} for input {data[key]}: ancestor of clade "
+                                f"{sorted(cl)} is called {node.name!r}, reference pre-order numbering gives {want!r}")
+            try:
+                sol = SuperReconciliationOutput.from_dict(obj)
+                c = A.impl_cost(sol.cost())
+            except Exception as exc:
+                return ("unreadable", f"written object does not parse back: {type(exc).__name__}: {exc}; line {ln[:300]}")
+            if float(c) != float(printed):
+                return ("min_cost", f"printed 'Minimum cost: {printed}' but the written object costs {c}: {ln[:300]}")
+        lines_by_policy[policy] = canon
+        for ln in lines[:3]:
+            for orient in ("vertical", "horizontal"):
+                try:
+                    st, _, derr, raw = cli_driver.run_cli(["draw", "--orientation", orient], ln)
+                except Exception as exc:
+                    return ("draw", f"draw --orientation {orient} raised {type(exc).__name__}: {exc} on {ln[:300]}")
+                if st != 0 or b"\\begin{tikzpicture}" not in raw:
+                    return ("draw", f"draw --orientation {orient} exited {st} / wrote no picture for {ln[:200]}")
+    if not set(lines_by_policy["any"]) <= set(lines_by_policy["all"]):
+        return ("any_not_in_all", f"--solutions all ({len(lines_by_policy['all'])} objects) does not contain the --solutions any object")
+    if len(set(lines_by_policy["all"])) != len(lines_by_policy["all"]):
+        return ("all_duplicates", "--solutions all wrote the same object twice")
+    return None
+
+
+def poly_patterns(tm, prefix):
+    ints = tm.internal
+    pats = [("all_named", {v: f"{prefix.lower()}anc{v}" for v in ints}), ("none_named", {v: "" for v in ints})]
+    if ints:
+        pats.append((f"{prefix}0_at_last", {v: (f"{prefix}0" if v == ints[-1] else "") for v in ints}))
+        pats.append((f"{prefix}1_at_root", {v: (f"{prefix}1" if v == ints[0] else "") for v in ints}))
+    return pats
+
+
 def check_missing_syntenies(O, S, leafmap, opat, spat, algo):
     data, _, _ = make_input(O, S, leafmap, opat, spat, None, True)
     try:
@@ -223,6 +322,19 @@ def plan(tier, seed):
         n = spaces.count_assignments(osh, ssh)
         for i in range(n):
             out.append({"slice": f"cli:{'P3x2+P4x1' if tier == 'quick' else 'P3x3+P4x2'}", "osh": osh, "ssh": ssh, "asg": i, "full": tier != "quick"})
+    # multifurcating input files (extended solvers): at least one polytomy in either tree
+    maxo, maxs = (3, 3) if tier == "quick" else (4, 3)
+    for no in range(2, maxo + 1):
+        for ns in range(1, maxs + 1):
+            for osh in spaces.schroeder_shapes(no):
+                for ssh in spaces.schroeder_shapes(ns):
+                    if T(osh).is_binary() and T(ssh).is_binary():
+                        continue
+                    if no == 4 and not (T(ssh).is_binary() and max(len(T(osh).children[v]) for v in range(T(osh).n)) == 3):
+                        continue
+                    for i in range(spaces.count_assignments(osh, ssh)):
+                        out.append({"slice": "cli:polytomies", "mode": "poly", "osh": osh, "ssh": ssh, "asg": i,
+                                    "full": tier != "quick"})
     return out
 
 
@@ -249,7 +361,50 @@ def cases_for(O, S, leafmap, full):
                         yield oid, opat, sid, spat, algo, leafsyn, bool(k % 2), ci
 
 
+def poly_cases(O, S, full, asg):
+    """cases of one leaf assignment: both extended solvers x (rotating half of / all) synteny tuples on 2 families, the
+    16 (object pattern, species pattern) pairs and the cost options rotating over the cases"""
+    o2, u2 = spaces.ordered_syntenies(2), spaces.unordered_syntenies(2)
+    n = len(O.leaves)
+    osyn = [dict(zip(O.leaves, t)) for t in spaces.synteny_tuples(n, o2) if ordered.root_orders(dict(zip(O.leaves, t)))]
+    usyn = [dict(zip(O.leaves, t)) for t in spaces.synteny_tuples(n, u2)]
+    leafmap = list(spaces.assignments(O, S))[asg]
+    pats = [(o, s) for o in poly_patterns(O, "O") for s in poly_patterns(S, "S")]
+    k = asg
+    for algo, syns in (("ext_spfs", osyn), ("superdtl", usyn)):
+        for leafsyn in (syns if full else syns[asg % 2::2]):
+            k += 1
+            (oid, opat), (sid, spat) = pats[k % len(pats)]
+            yield leafmap, oid, opat, sid, spat, algo, leafsyn, k % 3
+
+
+def run_poly_shard(shard):
+    osh, ssh = shard["osh"], shard["ssh"]
+    O, S = T(osh), T(ssh)
+    n_eval = nt = vtotal = 0
+    viols = []
+    samples = []
+    for leafmap, oid, opat, sid, spat, algo, leafsyn, ci in poly_cases(O, S, shard["full"], shard["asg"]):
+        n_eval += 1
+        nt += 1
+        snames = _merge({v: f"sp{v}" for v in S.leaves}, spat)
+        bad = check_reconcile_poly(O, S, leafmap, opat, snames, leafsyn, algo, COST_OPTS[ci])
+        case = {"poly": True, "object_shape": osh, "species_shape": ssh, "leaf_object_species": sorted(leafmap.items()),
+                "object_pattern": oid, "species_pattern": sid, "algorithm": algo, "cost_option": ci,
+                "leaf_syntenies": sorted((k, list(v)) for k, v in leafsyn.items())}
+        if bad:
+            vtotal += 1
+            if len(viols) < 8 and not any(v["subcheck"] == bad[0] and v["case"]["algorithm"] == algo for v in viols):
+                viols.append({"property": PROP, "subcheck": bad[0], "case": case, "detail": bad[1]})
+        if not samples:
+            samples.append(case)
+    return {"evaluations": n_eval, "nontrivial": nt, "samples": samples, "violations": viols, "violations_total": vtotal,
+            "counters": {"cli_polytomy_cases": n_eval}}
+
+
 def run_shard(shard, tier, seed):
+    if shard.get("mode") == "poly":
+        return run_poly_shard(shard)
     osh, ssh = shard["osh"], shard["ssh"]
     O, S = T(osh), T(ssh)
     leafmap = list(spaces.assignments(O, S))[shard["asg"]]
@@ -295,9 +450,17 @@ def replay(v):
     c = v["case"]
     O, S = T(shape_from_json(c["object_shape"])), T(shape_from_json(c["species_shape"]))
     leafmap = {int(k): int(x) for k, x in c["leaf_object_species"]}
-    opat = dict(object_patterns(O))[c["object_pattern"]]
-    spat = dict(species_patterns(S))[c["species_pattern"]]
+    if not c.get("poly"):
+        opat = dict(object_patterns(O))[c["object_pattern"]]
+        spat = dict(species_patterns(S))[c["species_pattern"]]
     stubs.install(stubs.Stub("hash", 1))
+    if c.get("poly"):
+        opat = dict(poly_patterns(O, "O"))[c["object_pattern"]]
+        spat = dict(poly_patterns(S, "S"))[c["species_pattern"]]
+        leafsyn = {int(k): tuple(x) for k, x in c["leaf_syntenies"]}
+        bad = check_reconcile_poly(O, S, leafmap, opat, _merge({v: f"sp{v}" for v in S.leaves}, spat), leafsyn,
+                                   c["algorithm"], COST_OPTS[c["cost_option"]])
+        return {"violated": bool(bad), "detail": (bad[0] + ": " + bad[1]) if bad else None}
     if c.get("missing"):
         bad = check_missing_syntenies(O, S, leafmap, opat, spat, c["algorithm"])
     else:
